@@ -24,6 +24,7 @@ import math
 from fractions import Fraction
 
 from harness.core import COQ, Ctx, VERIF, cbool, clist, cnat, copt, cq, guarded, pmap
+from harness.props import C04_families as FAM
 from harness.props import C04_port as PORT
 
 ID = "C04"
@@ -243,8 +244,7 @@ def gen_bindet(rng):
 
 def gen_variants(rng, inst, k):
     n = len(inst["c"])
-    out = [{"heuristics": False, "warm_start": None, "solution_limit": 1, "lns_iterations": 0, "max_iter": None,
-            "max_nodes": None, "gap_tol": None, "seed": 0}]
+    out = [_norm_var({"heuristics": False})]
     for _ in range(k):
         v = {"heuristics": rng.random() < 0.65, "lns_iterations": rng.choice([0, 0, 3, 3, 3]),
              "solution_limit": rng.choice([1, 1, 1, 3, 3, 2]),
@@ -270,6 +270,9 @@ def gen_variants(rng, inst, k):
         else:
             ws = [0.0] * n
         v["warm_start"] = ws
+        v["form"] = rng.choice(FAM.FORMS)
+        v["eps"] = None if rng.random() < 0.9 else rng.choice([1e-9, 1e-7])
+        v["lns_destroy_frac"] = None
         out.append(v)
     return out
 
@@ -319,11 +322,23 @@ def _kwargs(inst, var):
         kw["max_nodes"] = var["max_nodes"]
     if var.get("gap_tol") is not None:
         kw["gap_tol"] = var["gap_tol"]
+    if var.get("eps") is not None:
+        kw["eps"] = var["eps"]
+    if var.get("lns_destroy_frac") is not None:
+        kw["lns_destroy_frac"] = var["lns_destroy_frac"]
+    if "seed" in var and var["seed"] is None:
+        kw["seed"] = None
     return kw
 
 
-def run_impl(inst, var, timeout=5):
-    """-> dict(status, solution, objective, nodes, solutions, lns=record | None) or dict(fail=...)"""
+def small_enough(inst):
+    """instances the exact replica and the vm_compute correspondence handle in milliseconds"""
+    return len(inst["c"]) <= 5 and len(inst["b"]) <= 12
+
+
+def run_impl(inst, var, timeout=5, shared=None):
+    """-> dict(status, solution, objective, nodes, solutions, lns=record | None) or dict(fail=...).
+    `shared`: (c, A, b, ints, ws) objects to pass instead of fresh copies (aliasing / call-sequence checks)"""
     import solvor.milp as M
 
     rec = {}
@@ -355,9 +370,16 @@ def run_impl(inst, var, timeout=5):
         return orig_push(heap, item)
 
     M._lns_improve, M._most_fractional, M.heappush = wrapped, mf, push
+    kw = _kwargs(inst, var)
+    if shared is not None:
+        a_c, a_A, a_b, a_ints, a_ws = shared
+    else:
+        a_c, a_A, a_b, a_ints, a_ws = FAM.apply_form(var.get("form", "list"), list(inst["c"]), [list(r) for r in inst["A"]],
+                                                     list(inst["b"]), list(inst["ints"]), kw.get("warm_start"))
+    if "warm_start" in kw:
+        kw["warm_start"] = a_ws
     try:
-        res = guarded(M.solve_milp, list(inst["c"]), [list(r) for r in inst["A"]], list(inst["b"]), list(inst["ints"]),
-                      timeout=timeout, **_kwargs(inst, var))
+        res = guarded(M.solve_milp, a_c, a_A, a_b, a_ints, timeout=timeout, **kw)
     finally:
         M._lns_improve, M._most_fractional, M.heappush = orig, orig_mf, orig_push
     if res[0] != "ok":
@@ -468,6 +490,9 @@ def int_box(inst):
 
 def truth(inst):
     """-> ('UNB',) | ('INF',) | ('OPT', value, point)   exact optimum of the MILP in the direction asked (value = c.x)"""
+    if inst.get("known") is not None:
+        k = inst["known"]
+        return (k[0], F(k[1]), [F(v) for v in k[2]] if k[2] is not None else ["(optimum known by construction)"])
     if relaxation_unbounded(inst):
         return ("UNB",)
     c, A, b, ints = inst["c"], inst["A"], inst["b"], inst["ints"]
@@ -609,6 +634,8 @@ def run_port(inst, var, out):
         kw["max_nodes"] = var["max_nodes"]
     if var.get("gap_tol") is not None:
         kw["gap_tol"] = F(var["gap_tol"])
+    if var.get("eps") is not None:
+        kw["eps"] = F(var["eps"])
     res = guarded(PORT.solve_milp, inst["c"], inst["A"], inst["b"], inst["ints"], timeout=20, **kw)
     if res[0] != "ok":
         return None, [f"replica failed: {res[1:]}"]
@@ -674,10 +701,44 @@ def _work(item):
         out = run_impl(inst, var)
         outs.append(out)
         verdicts.append(judge(inst, var, out, tr))
+        if not small_enough(inst):
+            ports.append((True, ["large"]))
+            continue
         port, why = run_port(inst, var, out) if "fail" not in out else (None, [])
         ports.append((same_as_port(port, out, var), why))
     grp = judge_group(inst, variants, outs, tr)
+    if grp is None:
+        grp = alias_check(inst, variants, outs)
     return tr, outs, verdicts, ports, grp
+
+
+def _same_out(a, b):
+    keys = ("status", "solution", "objective", "nodes", "solutions")
+    if "fail" in a or "fail" in b:
+        return ("fail" in a) == ("fail" in b)
+    return all(a[k] == b[k] for k in keys)
+
+
+def alias_check(inst, variants, outs):
+    """A: the caller's objects are not modified and the answer does not depend on earlier calls: the first two option sets are run
+    again on ONE shared set of input objects in the order v1, v0, v1 and must reproduce the answers of the fresh calls."""
+    if len(variants) < 2 or any("fail" in o for o in outs[:2]):
+        return None
+    import copy
+    ws0 = variants[0].get("warm_start") or variants[1].get("warm_start")
+    shared = (list(inst["c"]), [list(r) for r in inst["A"]], list(inst["b"]), list(inst["ints"]), None if ws0 is None else list(ws0))
+    before = copy.deepcopy(shared)
+    for k in (1, 0, 1):
+        var = variants[k]
+        sh = shared if var.get("warm_start") is None or var.get("warm_start") == ws0 else shared[:4] + (list(var["warm_start"]),)
+        out = run_impl(inst, var, shared=sh)
+        if shared != before:
+            return var, f"solve_milp modified its caller's input objects: {before} -> {shared}"
+        if not _same_out(out, outs[k]):
+            return var, (f"answer depends on earlier calls / shared input objects: fresh call gave {outs[k].get('status')} "
+                         f"{outs[k].get('solution')} {outs[k].get('objective')}, the same call after other calls on the same objects gave "
+                         f"{out.get('status')} {out.get('solution')} {out.get('objective')}")
+    return None
 
 
 # ---------------------------------------------------------------------------------- Coq terms
@@ -698,7 +759,7 @@ def coq_case(inst, var, out):
     ql = lambda xs: clist(xs, _q)  # noqa: E731
     return ("(mkK {c} {A} {b} {ints} {mn} {eps} {gap} {it} {nd} {ws} {lim} {heur} {lns} {ans} {st} {sol} {obj} {nodes} {sols})".format(
         c=ql(inst["c"]), A=clist(inst["A"], ql), b=ql(inst["b"]), ints=clist(inst["ints"], cnat), mn=cbool(inst["minimize"]),
-        eps="milp_eps_default", gap="milp_gap_tol_default" if var.get("gap_tol") is None else _q(var["gap_tol"]),
+        eps="milp_eps_default" if var.get("eps") is None else _q(var["eps"]), gap="milp_gap_tol_default" if var.get("gap_tol") is None else _q(var["gap_tol"]),
         it=copt(var.get("max_iter"), cnat), nd=copt(var.get("max_nodes"), cnat),
         ws=copt(var.get("warm_start"), ql), lim=cnat(var.get("solution_limit", 1)), heur=cbool(var.get("heuristics", True)),
         lns=cnat(var.get("lns_iterations", 0)), ans=copt(lns_answer, ql),
@@ -771,7 +832,7 @@ def _corpus():
 
 def _norm_var(v):
     base = {"heuristics": True, "warm_start": None, "solution_limit": 1, "lns_iterations": 0, "max_iter": None,
-            "max_nodes": None, "gap_tol": None, "seed": 0}
+            "max_nodes": None, "gap_tol": None, "seed": 0, "eps": None, "lns_destroy_frac": None, "form": "list"}
     base.update(v)
     return base
 
@@ -818,7 +879,41 @@ def run(ctx: Ctx):
     for _ in range(ctx.budget(150, 1500)):
         inst = gen_bindet(ctx.rng)
         items.append((inst, gen_variants(ctx.rng, inst, 2)))
-    results = pmap(_work, items, chunksize=2)
+    # ---- round-2 families (HARDENING.md): H events, M magnitudes, S sizes, O option sweeps (I forms: in gen_variants; A: in _work)
+    for inst in FAM.event_corpus(ctx.budget(4, 12)):
+        items.append((inst, [_norm_var({"heuristics": False}), _norm_var({}), _norm_var({"lns_iterations": 3, "form": "tuple"})]))
+    kept, seen = FAM.event_search(ctx.rng, pmap, ctx.budget(2500, 40000), ctx.budget(5, 40), ctx.budget(2, 6))
+    for e, k in seen.items():
+        ctx.count("events_seen_in_search", e, k)
+    for inst, want in kept:
+        for e in want:
+            ctx.count("events_kept", e)
+        items.append((inst, [_norm_var({"heuristics": False})] + gen_variants(ctx.rng, inst, 2)[1:]))
+    for _ in range(ctx.budget(12, 120)):
+        base = gen_nontrivial(ctx.rng, False) if ctx.rng.random() < 0.5 else FAM.gen_tiny(ctx.rng)
+        for inst in FAM.magnitude_variants(ctx.rng, base):
+            items.append((inst, [_norm_var({"heuristics": False}), _norm_var({"form": ctx.rng.choice(FAM.FORMS)}),
+                                 _norm_var({"lns_iterations": 3, "solution_limit": ctx.rng.choice([1, 3])})]))
+    for inst in FAM.big_box_templates(ctx.rng):
+        items.append((inst, [_norm_var({"heuristics": False}), _norm_var({}), _norm_var({"solution_limit": 3, "form": "float"})]))
+    for inst in FAM.size_instances(ctx.rng, big):
+        items.append((inst, [_norm_var({"heuristics": False}), _norm_var({}), _norm_var({"lns_iterations": 2})]))
+    for _ in range(ctx.budget(5, 30)):
+        inst = gen_nontrivial(ctx.rng, False) if ctx.rng.random() < 0.6 else gen_bindet(ctx.rng)
+        inst = dict(inst)
+        inst["family"] = "sweep:" + inst.get("family", "?").split(":")[0]
+        vs = []
+        for v in FAM.option_sweeps(ctx.rng):
+            v = dict(v)
+            if v.get("warm_start") == "x0":
+                v["warm_start"] = [float(x) for x in inst["x0"]]
+            vs.append(_norm_var(v))
+        items.append((inst, [_norm_var({"heuristics": False})] + vs))
+    import time as _time
+    t_gen = _time.time()
+    results = pmap(_work, items, chunksize=1)
+    ctx.extra["timing_s"] = {"generation": round(t_gen - ctx.t0, 1), "implementation+oracle+replica": round(_time.time() - t_gen, 1)}
+    t_coq = _time.time()
 
     coq_cases, metas = [], []
     spec_cases, spec_metas, gate_cases, gate_metas = [], [], [], []
@@ -850,6 +945,13 @@ def run(ctx: Ctx):
                 continue
             if "fail" in out:
                 continue
+            for key in ("form", "eps", "lns_destroy_frac"):
+                if var.get(key) not in (None, "list"):
+                    ctx.count("opt_" + key, var[key])
+            if why == ["large"]:
+                ctx.count("large_instances_judged_by_construction", inst.get("family", "?"))
+                ctx.nontriv(json.dumps([inst["family"], len(inst["c"]), len(inst["b"]), var], sort_keys=True, default=str))
+                continue
             lns = out.get("lns")
             if lns:
                 ctx.count("lns_called", "improved" if lns["answer"] != lns["given"] else "same")
@@ -876,11 +978,12 @@ def run(ctx: Ctx):
             ctx.traces_validated += 1
             coq_cases.append(coq_case(inst, var, out))
             metas.append((inst, var, out))
-        gate_cases.append(coq_case(inst, _norm_var({}), {"status": "OPTIMAL", "solution": None, "objective": 0.0, "nodes": 0, "solutions": None}))
-        gate_metas.append(inst)
+        if small_enough(inst):
+            gate_cases.append(coq_case(inst, _norm_var({}), {"status": "OPTIMAL", "solution": None, "objective": 0.0, "nodes": 0, "solutions": None}))
+            gate_metas.append(inst)
         if grp and not reported and len(ctx.violations) < 8:
             var, what = grp
-            ctx.violation(f"solve_milp: {what}", {"kind": "milp-group", **inst, "options": var, "all_options": variants,
+            ctx.violation(f"solve_milp: {what}", {"kind": "milp-group", **{k: v for k, v in inst.items() if k != "known"}, "options": var, "all_options": variants,
                                                    "impl": outs, "exact_verdict": [str(v) for v in tr[:2]]})
 
     # the implementation's results judged by the boolean specification proved sound in Coq (independent of the model's answer)
@@ -912,6 +1015,7 @@ def run(ctx: Ctx):
     if lns_bad and not ctx.violations:
         ctx.violation("lns_answer_ok: a recorded _lns_improve answer fails the model's is_feasible", {"lemma": "Cases/C04/lnsok_*.v corr"}, no_input=True)
 
+    ctx.extra["timing_s"]["coq_cases"] = round(_time.time() - t_coq, 1)
     if (disagree or ctx.broken) and not ctx.violations:
         found = False
         search = []
